@@ -146,6 +146,69 @@ def run(rep, drv):
 		if bad:
 			diff('sum_of_continuous_uniforms.cdf', 'cdf of the sum of continuous uniforms wrong or raises (%s argument)' % mode, case, r2, [float(x) for x in mo], True)
 
+	# ---- distribution objects of sums, Irwin-Hall cdf, nearest_dict_value, min_of_dict --------------------------------
+	for k in range(N // 8):
+		n = rng.randint(1, 4); lo = rng.randint(-2, 3); hi = lo + rng.randint(0, 4)
+		case = {'n': n, 'lo': lo, 'hi': hi}
+		rep.case('sum_of_discrete_uniforms_distribution', case)
+		mo = [float(unfr(x)) for x in drv.call('sumdu', **case)]
+		dist = call(H.sum_of_discrete_uniforms_distribution, n, lo, hi)
+		rep.tol_cmp += 1
+		if isinstance(dist, dict):
+			diff('sum_of_discrete_uniforms_distribution', 'raised', case, dist, None, True)
+		else:
+			pm = [float(dist.pmf(n * lo + i)) for i in range(len(mo))]
+			cum = 0.0; bad = False
+			for i, q in enumerate(mo):
+				cum += q
+				if abs(pm[i] - q) > 1e-12 or abs(float(dist.cdf(n * lo + i)) - cum) > 1e-9:
+					bad = True
+			if bad or abs(float(dist.mean()) - n * (lo + hi) / 2) > 1e-9 or float(dist.pmf(n * lo - 1)) != 0 or float(dist.pmf(n * hi + 1)) != 0:
+				diff('sum_of_discrete_uniforms_distribution', 'distribution object is not the n-fold convolution of the discrete uniform', case, pm, mo, True)
+		# general discrete summands
+		m = hi - lo + 1
+		w = [rng.randint(0, 5) for _ in range(m)]
+		if sum(w) == 0:
+			w[0] = 1
+		pr = [F(x, sum(w)) for x in w]
+		case2 = {'n': n, 'lo': lo, 'hi': hi, 'p': frs(pr)}
+		rep.case('sum_of_discretes_distribution', case2)
+		mo2 = [float(unfr(x)) for x in drv.call('convmany', arrays=[frs(pr)] * n)]
+		dist2 = call(H.sum_of_discretes_distribution, n, lo, hi, [float(x) for x in pr])
+		rep.tol_cmp += 1
+		if isinstance(dist2, dict):
+			diff('sum_of_discretes_distribution', 'raised', case2, dist2, None, True)
+		else:
+			pm2 = [float(dist2.pmf(n * lo + i)) for i in range(len(mo2))]
+			if any(abs(a - b) > 1e-9 for a, b in zip(pm2, mo2)) or abs(sum(pm2) - 1) > 1e-9:
+				diff('sum_of_discretes_distribution', 'distribution object is not the n-fold convolution of the given pmf', case2, pm2, mo2, True)
+		bad_len = call(H.sum_of_discretes_distribution, n, lo, hi, [1.0] * (m + 1))
+		if not (isinstance(bad_len, dict) and bad_len.get('error') == 'ValueError'):
+			diff('sum_of_discretes_distribution', 'a probability list of the wrong length must raise ValueError', case2, str(bad_len), None, True)
+		# Irwin-Hall cdf = cdf of the sum of n U[0,1] = model sumcu with lo=0, hi=1
+		nn = rng.randint(1, 5)
+		xs = [F(rng.randint(0, 8 * nn), 8) for _ in range(3)] + [F(0), F(nn)]
+		mo3 = [float(unfr(x)) for x in drv.call('sumcu', n=nn, lo='0', hi='1', xs=frs(xs))]
+		rep.case('irwin_hall_cdf', {'n': nn, 'xs': frs(xs)})
+		got = [call(H.irwin_hall_cdf, float(x), nn) for x in xs]
+		rep.tol_cmp += 1
+		if any(isinstance(g, dict) or abs(float(g) - m3) > 1e-9 for g, m3 in zip(got, mo3)):
+			diff('irwin_hall_cdf', 'Irwin-Hall cdf differs from the cdf of the sum of n uniforms', {'n': nn, 'xs': frs(xs)}, [g if isinstance(g, dict) else float(g) for g in got], mo3, True)
+		# nearest_dict_value / min_of_dict: documented results on random dicts
+		keys = rng.sample([dyad(rng, -8, 8) for _ in range(12)], rng.randint(1, 6))
+		keys = list(dict.fromkeys(keys))
+		dct = {float(kk): rng.randint(0, 9) for kk in keys}
+		q = float(rng.choice(keys)) if rng.random() < .3 else float(dyad(rng, -9, 9))
+		rep.case('nearest_dict_value', {'keys': frs(keys), 'q': fr(q)})
+		r = call(H.nearest_dict_value, q, dict(dct))
+		best = min(abs(kk - q) for kk in dct)
+		rep.exact_cmp += 1
+		if isinstance(r, dict) or r not in [v for kk, v in dct.items() if abs(kk - q) == best]:
+			diff('nearest_dict_value', 'nearest_dict_value(%r) = %r is not the value of a closest key' % (q, r), {'dict': {str(a_): b_ for a_, b_ in dct.items()}, 'q': q}, str(r), None, True)
+		r = call(H.min_of_dict, dict(dct))
+		if isinstance(r, dict) or r[0] != min(dct.values()) or dct.get(r[1]) != r[0]:
+			diff('min_of_dict', 'min_of_dict = %r but the minimum value is %r' % (r, min(dct.values())), {'dict': {str(a_): b_ for a_, b_ in dct.items()}}, str(r), None, True)
+
 	# ---- normalisers -----------------------------------------------------
 	for k in range(N):
 		n = rng.randint(0, 5)
@@ -267,6 +330,11 @@ def run(rep, drv):
 		for v, w in [([1], True), ((1, 2), True), ('ab', False), (5, False), (np.array([1]), True), ({1: 2}, True), (None, False)]:
 			if H.is_iterable(v) != w:
 				diff('predicates', 'is_iterable(%r) = %r' % (v, H.is_iterable(v)), {}, None, None, True)
+		for fn, truthy in ((H.is_list, [[1], []]), (H.is_set, [{1}, set()]), (H.is_dict, [{1: 2}, {}])):
+			for v in ([1], [], {1}, set(), {1: 2}, {}, (1, 2), 'ab', 5, None, np.array([1])):
+				w = any(type(v) is type(tv) for tv in truthy)
+				if bool(fn(v)) != w:
+					diff('predicates', '%s(%r) = %r' % (fn.__name__, v, fn(v)), {}, None, None, True)
 		if not (H.check_iterable_sizes([[1, 2], [3, 4], 5, [6]]) and not H.check_iterable_sizes([[1, 2], [3, 4, 5]])):
 			diff('predicates', 'check_iterable_sizes wrong', {}, None, None, True)
 		nd = {2: {None: 1.0, 3: 2.0}, None: {5: 3.0}, 1: {4: 4.0}}
